@@ -32,7 +32,7 @@ func (l *c12Lister) ListBindRequests() ([]*schedulingv1alpha2.BindRequest, error
 // request is gone its pod is charged to the selected node (idle reduced by the request, GPU groups
 // attached); a request for a node that no longer exists is handed to deletion and its pod is
 // schedulable again; IsFailed() is exactly "phase Failed and the retry budget is used up".
-// BOUND: one pending pod (cpu request symbolic milli-cpu < 2^20, optionally a fraction pod with one selected GPU group, optionally a DRA claim whose object is named like the pod's claim reference or generated from a template), one node with symbolic cpu (or the selected node deleted); BindRequest phase empty/Pending/Failed/Succeeded, failedAttempts and backoffLimit (nil or any int32) symbolic
+// BOUND: one pending pod (cpu request symbolic milli-cpu < 2^20, optionally a fraction pod with one selected GPU group (and possibly a stale group label from an earlier failed bind), optionally a DRA claim whose object is named like the pod's claim reference or generated from a template), one node with symbolic cpu (or the selected node deleted); BindRequest phase empty/Pending/Failed/Succeeded, failedAttempts and backoffLimit (nil or any int32) symbolic
 func VerifC12_SnapshotChargesPendingBindRequest() {
 	vm := resource_info.NewResourceVectorMap()
 	nodeCpu := vr.AnyFloatNat("node.cpu", 24)
@@ -58,6 +58,11 @@ func VerifC12_SnapshotChargesPendingBindRequest() {
 		br.Spec.ReceivedResourceType = "Fraction"
 		br.Spec.ReceivedGPU = &schedulingv1alpha2.ReceivedGPU{Count: 1, Portion: "0.5"}
 		br.Spec.SelectedGPUGroups = []string{"g0"}
+		if vr.AnyBool("staleGroupLabel") {
+			// left over from an earlier failed bind whose rollback could not remove it: the in-flight
+			// request, not the stale label, says which group the pod is being bound into
+			pod.Labels[commonconstants.GPUGroup] = "g-stale"
+		}
 	}
 	// Succeeded: the binder is done but the scheduler's pod informer has not shown spec.nodeName yet -
 	// the request is then the only thing tying the pod to the node
